@@ -145,8 +145,13 @@ fn sequence_standin(def: &quil_rs::instruction::GateDefinition, k: usize) -> Opt
             vec![],
         )
         .ok()?;
-        let program = Program::from_instructions(vec![Instruction::GateDefinition(def.clone()), Instruction::Gate(invocation)]);
-        let name = def.name.clone();
+        // under a name of its own, so that an element invoking the definition's real name (a
+        // self-reference, which is only an error when expanded) is left as it is
+        let mut renamed = def.clone();
+        renamed.name = "zz_standin_for_comparison".to_string();
+        let invocation = Gate { name: renamed.name.clone(), ..invocation };
+        let program = Program::from_instructions(vec![Instruction::GateDefinition(renamed.clone()), Instruction::Gate(invocation)]);
+        let name = renamed.name.clone();
         if let Ok(expanded) = program.expand_defgate_sequences(move |n| n == name) {
             let body: Vec<Instruction> = expanded.body_instructions().map(|i| canon(i, k)).collect();
             return Some(Instruction::CircuitDefinition(CircuitDefinition {
